@@ -59,6 +59,8 @@ type vfMFilter struct {
 	V2    *vfMVal  `json:"v2,omitempty"`
 	List  []vfMVal `json:"list,omitempty"`
 	Not   bool     `json:"not,omitempty"`
+	// the library filter is additionally wrapped in Not(Not(...)): the same predicate
+	NotTwice bool `json:"not_twice,omitempty"`
 }
 
 type vfMOp struct {
@@ -211,6 +213,7 @@ func vfGenMFilterLike(rt *rapid.T, stored map[string][]vfMVal, like *vfMFilter) 
 		f.V = operand("v")
 	}
 	f.Not = rapid.IntRange(0, 4).Draw(rt, "negate") == 0
+	f.NotTwice = rapid.IntRange(0, 7).Draw(rt, "negate_twice") == 0
 	if f.Op == "range" && vfEnv("VERIF_C04_NO_NOT_RANGE") != "" {
 		f.Not = false // development switch used once to isolate F8 from F9
 	}
@@ -414,6 +417,9 @@ func vfToFilter(f *vfMFilter) Filter {
 	if f.Not {
 		out = Not(out)
 	}
+	if f.NotTwice {
+		out = Not(Not(out))
+	}
 	return out
 }
 
@@ -496,10 +502,19 @@ func vfRunMetaSearch(idx MetadataIndex, op *vfMOp) ([]uint32, error) {
 			for i := range g {
 				fs = append(fs, vfToFilter(&g[i]))
 			}
+			// groups with several filters are split: the first filter opens the group (Where / Or), the
+			// rest are attached with And (documented: "adds filters with AND logic to the last group")
+			head, tail := fs, []Filter(nil)
+			if len(fs) >= 2 && (len(fs)+gi)%2 == 0 {
+				head, tail = fs[:1], fs[1:]
+			}
 			if gi == 0 {
-				qb = qb.Where(fs...)
+				qb = qb.Where(head...)
 			} else {
-				qb = qb.Or(fs...)
+				qb = qb.Or(head...)
+			}
+			if len(tail) > 0 {
+				qb = qb.And(tail...)
 			}
 		}
 		r, err := qb.Execute(idx)
